@@ -342,9 +342,9 @@ def main(tier):
     # C05i: the gates combined in one condition address the same sample
     c05_skip.same_sample_gates_rule(prog, chk, "C05i", ("src/",), 1)
     # C05j: in a double loop over the samples the value gate of the inner loop looks at the inner sample
-    c05_skip.inner_gate_rule(gprog, chk, "C05j", ("src/",), 15)
+    c05_skip.inner_gate_rule(gprog, chk, "C05j", ("src/",), 25)
     # C05w: a selection switch and the activity test are combined with the polarity used everywhere else
-    c05_skip.selection_switch_rule(gprog, chk, "C05w", ("src/",), 8)
+    c05_skip.selection_switch_rule(gprog, chk, "C05w", ("src/",), 25)
     # C05n: a mean over the defined / active samples is divided by the count of those samples (sum and counter behind the same guards)
     c05_skip.guard_agreement_rule(gprog, chk, "C05n", ("src/",), 25, accepted={
         ("dbStatisticsVariables", "metal", "neff"): "Q (metal quantity) and B (conventional benefit) of the selectivity statistics are by definition the quantity above the cutoff relative to ALL the defined values",
